@@ -52,16 +52,20 @@ Section C16.
     (nlook f op = nlook b op \/ nlook f op = None).
 
   (* w is the complete output for the operand's content *)
+  (* with -f a symbolic link is followed: then "the input" is not what the operand names (see C16_force_symlink_refuted) *)
+  Definition plain : Prop := c_force cf = true -> forall t, nlook b op <> Some (DSym t).
+
   Definition Wok (w : bytes) : Prop :=
+    plain ->
     exists iin ndin, nlook b op = Some (DLink iin) /\ ilook b iin = Some ndin /\
                      expected_output codec cf (i_data ndin) = Some w.
 
   Definition second (f : fs) (rm : bool) : Prop :=
-    exists j w, Wok w /\ fsD j w f /\ (nlook f op = None \/ rm = true \/ c_keep cf = true).
+    regf = true /\ exists j w, Wok w /\ fsD j w f /\ (nlook f op = None \/ rm = true \/ c_keep cf = true).
 
   Definition exit_fs (y : why) (f : fs) (rm : bool) : Prop :=
     match y with
-    | WKill => fsA f \/ (exists cm j w, fsB cm j w f) \/ (exists j w, Wok w /\ fsD j w f)
+    | WKill => fsA f \/ (regf = true /\ exists cm j w, fsB cm j w f) \/ (regf = true /\ exists j w, Wok w /\ fsD j w f)
     | WSigHandled | WHang => fsA f
     | WFatal t => if String.eqb t "close-in" then fsA f \/ second f rm else fsA f
     | WSigDefault | WSigSti => fsA f \/ second f rm
@@ -73,9 +77,9 @@ Section C16.
   Definition PA (bl : bool) : assn := fun c => k_opathn c = None /\ k_blocked c = bl /\ fsA (k_fs c).
   Definition PAc (bl : bool) : assn := fun c => k_cleanfail c = true \/ PA bl c.
   Definition PB (cm : bool) (j : N) (w : bytes) : assn := fun c =>
-    k_opathn c = Some q /\ k_blocked c = true /\ fsB cm j w (k_fs c).
+    k_opathn c = Some q /\ k_blocked c = true /\ regf = true /\ fsB cm j w (k_fs c).
   Definition PD (bl : bool) (j : N) (w : bytes) : assn := fun c =>
-    k_opathn c = None /\ k_blocked c = bl /\ Wok w /\ fsD j w (k_fs c) /\
+    k_opathn c = None /\ k_blocked c = bl /\ regf = true /\ Wok w /\ fsD j w (k_fs c) /\
     (nlook (k_fs c) op = None \/ k_rmfail c = true \/ c_keep cf = true).
 
   (* ---- file system facts ------------------------------------------------------------------------ *)
@@ -188,15 +192,15 @@ Section C16.
     intros (_ & _ & H1 & H2 & _). split; [apply H2; intro E; apply q_neq_op; congruence | exact H1].
   Qed.
 
-  Lemma fsD_complete j w f : Wok w -> fsD j w f -> output_complete_closed codec cf b f op q.
+  Lemma fsD_complete j w f : plain -> Wok w -> fsD j w f -> output_complete_closed codec cf b f op q.
   Proof.
-    intros (iin & ndin & A & B & C) (Hb & H1 & H2 & H3 & (nd & N1 & N2 & N3 & N4) & _).
+    intros Hpl Hw (Hb & H1 & H2 & H3 & (nd & N1 & N2 & N3 & N4) & _). destruct (Hw Hpl) as (iin & ndin & A & B & C).
     exists iin, ndin, j, nd. rewrite N4. repeat split; auto.
   Qed.
 
-  Lemma second_second f rm : second f rm -> second_state codec cf b f op rm.
+  Lemma second_second f rm : plain -> second f rm -> second_state codec cf b f op rm.
   Proof.
-    intros (j & w & Hw & Hd & Hr). unfold second_state. rewrite Hq. split.
+    intros Hpl (_ & j & w & Hw & Hd & Hr). unfold second_state. rewrite Hq. split.
     - eapply fsD_complete; eauto.
     - unfold input_present. intro Hp. destruct Hr as [Hr|[Hr|Hr]]; auto.
   Qed.
@@ -213,11 +217,11 @@ Section C16.
   Lemma PAc_fatal bl c tag o : PAc bl c -> EX o (WFatal tag) c.
   Proof. intros [H|H]; [left; exact H|]. right. cbn. destruct (String.eqb tag "close-in"); [left|]; apply H. Qed.
   Lemma PB_kill cm j w c : PB cm j w c -> EX (Killed SIGKILL) WKill c.
-  Proof. intro H. right. right. left. exists cm, j, w. apply H. Qed.
+  Proof. intro H. right. right. left. split; [apply H|]. exists cm, j, w. apply H. Qed.
   Lemma PD_kill bl j w c : PD bl j w c -> EX (Killed SIGKILL) WKill c.
-  Proof. intro H. right. right. right. exists j, w. split; apply H. Qed.
+  Proof. intro H. right. right. right. split; [apply H|]. exists j, w. split; apply H. Qed.
   Lemma PD_second bl j w c : PD bl j w c -> second (k_fs c) (k_rmfail c).
-  Proof. intro H. exists j, w. split; [apply H|]. split; apply H. Qed.
+  Proof. intro H. split; [apply H|]. exists j, w. split; [apply H|]. split; apply H. Qed.
 
   (* ---- cleanup() and fatal errors ----------------------------------------------------------- *)
   Definition cleanup_inner (q' : path) : M unit :=
@@ -229,7 +233,7 @@ Section C16.
   Proof. reflexivity. Qed.
 
   Lemma cleanup_inner_B cm j w :
-    hc (fun c => k_blocked c = true /\ fsB cm j w (k_fs c)) (cleanup_inner q) (fun _ => PAc true) EX.
+    hc (fun c => k_blocked c = true /\ regf = true /\ fsB cm j w (k_fs c)) (cleanup_inner q) (fun _ => PAc true) EX.
   Proof.
     unfold cleanup_inner.
     eapply hc_bind with (R := fun r c => match r with
@@ -237,10 +241,10 @@ Section C16.
                                          | _ => k_blocked c = true /\ fsA (k_fs c)
                                          end).
     - apply hc_sys_gen.
-      + intros c (_ & H). right. right. left. exists cm, j, w. exact H.
+      + intros c (_ & Hr & H). right. right. left. split; [exact Hr|]. exists cm, j, w. exact H.
       + intros c sg (Hb & _) Hb'. congruence.
       + intros c e _. exact I.
-      + intros c (Hb & H). unfold natural_ok. destruct (fsB_unlink _ _ _ _ H) as [E1 E2]. rewrite E1.
+      + intros c (Hb & _ & H). unfold natural_ok. destruct (fsB_unlink _ _ _ _ H) as [E1 E2]. rewrite E1.
         split; [exact Hb | exact E2].
       + discriminate.
     - intro r. destruct r as [u|e|].
@@ -272,15 +276,15 @@ Section C16.
   Lemma fatal_from {T} (P : assn) bl tag (Q : T -> assn) :
     hc P (cleanup pl) (fun _ => PAc bl) EX -> hc P (fatal pl tag) Q EX.
   Proof.
-    intro Hc. unfold fatal. eapply hc_bind with (R := fun _ => P); [apply hc_say; auto|]. intros _.
-    eapply hc_bind with (R := fun _ => PAc bl); [exact Hc|]. intros _.
+    intro Hc. unfold fatal. eapply hc_bind with (R := fun _ => P); [apply hc_say; auto|]. intro.
+    eapply hc_bind with (R := fun _ => PAc bl); [exact Hc|]. intro.
     apply hc_stop. intros c H. eapply PAc_fatal; eauto.
   Qed.
 
   Lemma fatal_D {T} bl j w (Q : T -> assn) : hc (PD bl j w) (fatal pl "close-in") Q EX.
   Proof.
-    unfold fatal. eapply hc_bind with (R := fun _ => PD bl j w); [apply hc_say; auto|]. intros _.
-    eapply hc_bind with (R := fun _ => PD bl j w); [apply cleanup_D|]. intros _.
+    unfold fatal. eapply hc_bind with (R := fun _ => PD bl j w); [apply hc_say; auto|]. intro.
+    eapply hc_bind with (R := fun _ => PD bl j w); [apply cleanup_D|]. intro.
     apply hc_stop. intros c H. right. cbn. right. eapply PD_second; eauto.
   Qed.
 
@@ -305,9 +309,11 @@ Section C16.
       (forall c, P c -> I w c) ->
       hc (fun c => P c /\ k_blocked c = true) (cleanup pl) (fun _ c => EX (Killed sg) WSigHandled c) EX.
     Proof.
-      intro HP. eapply hc_conseq; [apply (I_cleanup w)| | |]; auto.
+      intro HP. eapply hc_conseq.
+      - apply (I_cleanup w).
       - intros k [H _]. auto.
-      - intros a0 k H. eapply PAc_handled; eauto.
+      - intros a0 k H. apply (PAc_handled true); exact H.
+      - auto.
     Qed.
 
     (* a read returns only an error or success; the tree is not changed.  [X]: extra pure-on-fs fact carried along *)
@@ -366,9 +372,12 @@ Section C16.
           * eapply hc_pre; [apply (IH w)|]. intros k [H _]. exact H.
           * eapply hc_pre; [apply I_fatal|]. intros k [H _]. exact H.
           * eapply hc_pre; [apply hc_false|]. intros k (_ & _ & F). exact F.
-      - eapply hc_bind; [apply I_do_write|]. intros _.
-        eapply hc_conseq; [apply (IH (w ++ ch))| | |]; auto.
-        intros a0 k H. unfold writes_of in *. cbn [map List.concat]. rewrite app_assoc. exact H.
+      - eapply hc_bind; [apply I_do_write|]. intro.
+        eapply hc_conseq.
+        + apply (IH (w ++ ch)).
+        + auto.
+        + intros a0 k H. unfold writes_of in *. cbn [map List.concat]. rewrite app_assoc. exact H.
+        + auto.
     Qed.
 
     (* reading a directory: the first read fails, nothing returns *)
@@ -400,33 +409,892 @@ Section C16.
 
     Lemma I_halt_entry w : hc (I w) (halt_entry pl) (fun _ => I w) EX.
     Proof.
-      apply hc_halt_entry. intro sg. eapply hc_conseq; [apply (I_cleanup w)| | |]; auto.
-      intros a0 k H. eapply PAc_handled; eauto.
+      apply hc_halt_entry. intro sg. eapply hc_conseq.
+      - apply (I_cleanup w).
+      - auto.
+      - intros a0 k H. apply (PAc_handled true); exact H.
+      - auto.
     Qed.
 
     Lemma I_halt_entry_dir w : hc (isdirP w) (halt_entry pl) (fun _ => isdirP w) EX.
     Proof.
-      apply hc_halt_entry. intro sg. eapply hc_conseq; [apply (I_cleanup w)| | |]; auto.
+      apply hc_halt_entry. intro sg. eapply hc_conseq.
+      - apply (I_cleanup w).
       - intros k [H _]. exact H.
-      - intros a0 k H. eapply PAc_handled; eauto.
+      - intros a0 k H. apply (PAc_handled true); exact H.
+      - auto.
     Qed.
 
     (* schedule() on a non-directory: everything was written and the verdict was good, or it did not return *)
     Lemma I_schedule w cr :
       hc (I w) (schedule cf pl iin o false cr) (fun _ c => I (w ++ writes_of (c_io cr)) c /\ c_ok cr = true) EX.
     Proof.
-      unfold schedule. eapply hc_bind; [apply I_halt_entry|]. intros _.
-      eapply hc_bind; [apply I_do_io|]. intros _. rewrite orb_false_r.
+      unfold schedule. eapply hc_bind; [apply I_halt_entry|]. intro.
+      eapply hc_bind; [apply I_do_io|]. intro. rewrite orb_false_r.
       destruct (c_ok cr); [apply hc_ret; auto | apply I_fatal].
     Qed.
 
-    Lemma I_schedule_dir {T} w cr (Q : T -> assn) (k : M T) :
-      hc (isdirP w) (schedule cf pl iin o true cr;;; k) Q EX.
+    Lemma I_schedule_dir w cr : hc (isdirP w) (schedule cf pl iin o true cr) (fun _ _ => False) EX.
     Proof.
-      unfold schedule. eapply hc_bind with (R := fun _ _ => False); [|intros; apply hc_false].
-      eapply hc_bind; [apply I_halt_entry_dir|]. intros _.
+      unfold schedule. eapply hc_bind; [apply I_halt_entry_dir|]. intro.
       cbn [do_io]. eapply hc_bind with (R := fun _ _ => False); [|intros; apply hc_false].
       apply I_read_dir. reflexivity.
     Qed.
+
+    Hypothesis I_keeps : forall w c, I w c -> keeps b (k_fs c).
+
+    (* work(): when it returns, everything work() writes has been written; for a file
+       output this is the complete expected output *)
+    Lemma I_work :
+      hc (I []) (work codec cf pl iin o)
+         (fun _ c => exists w, I w c /\
+                     (forall ndin, ilook b iin = Some ndin -> is_stdout o = false ->
+                                   expected_output codec cf (i_data ndin) = Some w)) EX.
+    Proof.
+      intros s Hs. unfold work. cbv zeta.
+      set (d := input_data (m_fs s) iin).
+      assert (Hd : forall ndin, ilook b iin = Some ndin -> d = i_data ndin).
+      { intros ndin Hn. unfold d, input_data. pose proof (I_keeps _ _ Hs _ _ Hn) as Hk. cbn in Hk. rewrite Hk. reflexivity. }
+      clearbody d.
+      destruct (input_is_dir (m_fs s) iin) eqn:Ed.
+      - (* a directory: the first read fails *)
+        assert (Hp : isdirP [] (core_of s)) by (split; [exact Hs | exact Ed]).
+        assert (H : hc (isdirP [])
+                       (if c_decompress cf
+                        then main_reads pl (hdr_reads d) iin;;;
+                             (if hdr_ok d then schedule cf pl iin o true (codec CExpand d)
+                              else if c_force cf && is_stdout o
+                                   then do_write cf pl false o (firstn 4 d);;; schedule cf pl iin o true (codec CCopy (skipn 4 d))
+                                   else fatal pl "notbz2")
+                        else schedule cf pl iin o true (codec CCompress d))
+                       (fun _ _ => False) EX).
+        { destruct (c_decompress cf); [|apply I_schedule_dir].
+          eapply hc_bind with (R := fun _ _ => False); [|intros; apply hc_false].
+          pose proof (hdr_reads_pos d) as Hpos. destruct (hdr_reads d) as [|n]; [lia|].
+          cbn [main_reads]. apply I_read_dir. reflexivity. }
+        specialize (H s Hp).
+        match type of H with match ?X with _ => _ end => destruct X as [u s'|o0 w0 s'] end; [contradiction | exact H].
+      - assert (H : hc (I [])
+                       (if c_decompress cf
+                        then main_reads pl (hdr_reads d) iin;;;
+                             (if hdr_ok d then schedule cf pl iin o false (codec CExpand d)
+                              else if c_force cf && is_stdout o
+                                   then do_write cf pl false o (firstn 4 d);;; schedule cf pl iin o false (codec CCopy (skipn 4 d))
+                                   else fatal pl "notbz2")
+                        else schedule cf pl iin o false (codec CCompress d))
+                       (fun _ c => exists w, I w c /\
+                                   (forall ndin, ilook b iin = Some ndin -> is_stdout o = false ->
+                                                 expected_output codec cf (i_data ndin) = Some w)) EX).
+        { unfold expected_output. destruct (c_decompress cf).
+          - eapply hc_bind; [apply I_main_reads|]. intro.
+            destruct (hdr_ok d) eqn:Eh.
+            + eapply hc_conseq; [apply (I_schedule [] (codec CExpand d)) | auto | | auto].
+              intros a0 k [Hi Hok]. eexists. split; [exact Hi|]. intros ndin Hn _.
+              rewrite <- (Hd _ Hn), Eh, Hok. reflexivity.
+            + destruct (c_force cf && is_stdout o) eqn:Ec; [|apply I_fatal].
+              eapply hc_bind; [apply I_do_write|]. intro.
+              eapply hc_conseq; [apply (I_schedule ([] ++ firstn 4 d) (codec CCopy (skipn 4 d))) | auto | | auto].
+              intros a1 k [Hi Hok]. eexists. split; [exact Hi|]. intros ndin Hn Hs'.
+              apply andb_true_iff in Ec as [_ Ec]. congruence.
+          - eapply hc_conseq; [apply (I_schedule [] (codec CCompress d)) | auto | | auto].
+            intros a0 k [Hi Hok]. eexists. split; [exact Hi|]. intros ndin Hn _.
+            rewrite <- (Hd _ Hn), Hok. reflexivity. }
+        apply (H s Hs).
+    Qed.
   End Work.
+  (* ---- the two instances of work() ---------------------------------------------------------- *)
+  Lemma with_fs_same (P : assn) c f : P c -> f = k_fs c -> P (with_fs c f).
+  Proof. intros H ->. destruct c; exact H. Qed.
+
+  Lemma work_file iin j :
+    hc (PB false j []) (work codec cf pl iin (OFile j))
+       (fun _ c => exists w, PB false j w c /\
+                   (forall ndin, ilook b iin = Some ndin -> expected_output codec cf (i_data ndin) = Some w)) EX.
+  Proof.
+    eapply hc_conseq.
+    - apply (I_work iin (OFile j) (PB false j)).
+      + intros w c H. eapply PB_kill; eauto.
+      + intros w c H. apply H.
+      + intro w. apply cleanup_B.
+      + intros w ch c (Ho & Hb & Hr & H). split; [exact Ho|]. split; [exact Hb|]. split; [exact Hr|].
+        cbn [k_fs with_fs]. apply fsB_write. exact H.
+      + intros w c f H E. apply with_fs_same; auto.
+      + intros w c (_ & _ & _ & H). apply H.
+    - auto.
+    - intros a0 k (w & H & Hw). exists w. split; auto.
+    - auto.
+  Qed.
+
+  Lemma work_nonfile iin o :
+    (forall i, o <> OFile i) ->
+    hc (PA true) (work codec cf pl iin o) (fun _ => PA true) EX.
+  Proof.
+    intro Ho. eapply hc_conseq.
+    - apply (I_work iin o (fun _ => PA true)).
+      + intros w c H. eapply PA_kill; eauto.
+      + intros w c H. apply H.
+      + intro w. apply cleanup_A.
+      + intros w ch c (H1 & H2 & H3). split; [exact H1|]. split; [exact H2|]. cbn [k_fs with_fs].
+        destruct ch as [|x ch]; [exact H3|]. destruct o as [| |i]; cbn [eff_write sys_write_stdout fst].
+        * apply fsA_stdout. exact H3.
+        * exact H3.
+        * exfalso. eapply Ho. reflexivity.
+      + intros w c f H E. apply with_fs_same; auto.
+      + intros w c (_ & _ & H). apply H.
+    - auto.
+    - intros a0 k (w & H & _). exact H.
+    - auto.
+  Qed.
+
+  (* ---- output_regf_uninit(), input_oprnd_rm() --------------------------------------------------- *)
+  Lemma PB_upd_step j w k (g : inode -> inode) :
+    (forall nd, i_kind (g nd) = i_kind nd) -> (forall nd, i_committed (g nd) = i_committed nd) ->
+    (forall nd, i_data (g nd) = i_data nd) ->
+    hc (PB false j w) (sys pl false k (fun f => (upd_inode f j g, SOk tt))) (fun _ => PB false j w) EX.
+  Proof.
+    intros G1 G2 G3. apply hc_sys_gen.
+    - intros c H. eapply PB_kill; eauto.
+    - intros c sg (_ & Hb & _) Hb'. congruence.
+    - intros c e H. exact H.
+    - intros c (Ho & Hb & Hr & H). unfold natural_ok. cbn [fst snd].
+      split; [exact Ho|]. split; [exact Hb|]. split; [exact Hr|]. cbn [k_fs with_fs].
+      eapply fsB_upd; eauto; intros; rewrite ?G2, ?G3; congruence.
+    - discriminate.
+  Qed.
+
+  Definition PC (j : N) (w : bytes) : assn := fun c =>
+    k_opathn c = None /\ k_blocked c = true /\ regf = true /\ fsB true j w (k_fs c).
+
+  Lemma regf_uninit_ok j w st :
+    hc (PB false j w) (regf_uninit pl j st) (fun _ => PC j w) EX.
+  Proof.
+    unfold regf_uninit.
+    eapply hc_bind with (R := fun _ => PB false j w).
+    { unfold sys_fchown. apply PB_upd_step; reflexivity. }
+    intro r1. eapply hc_bind with (R := fun _ => PB false j w).
+    { assert (Hm : hc (PB false j w)
+                      ((if negb (N.land (st_mode st) special_mask =? 0) then warn "special" else ret tt);;;
+                       r2 <- sys pl false KFchmod (sys_fchmod j (N.land (st_mode st) fchmod_mask));;
+                       match r2 with SErr _ => warn "fchmod" | _ => ret tt end) (fun _ => PB false j w) EX).
+      { eapply hc_bind with (R := fun _ => PB false j w).
+        - destruct (negb _); [apply hc_say; auto | apply hc_ret; auto].
+        - intro. eapply hc_bind with (R := fun _ => PB false j w).
+          + unfold sys_fchmod. apply PB_upd_step; reflexivity.
+          + intro r2. destruct r2; [apply hc_ret; auto | apply hc_say; auto | apply hc_ret; auto]. }
+      destruct r1; [exact Hm | apply hc_say; auto | exact Hm]. }
+    intro. eapply hc_bind with (R := fun _ => PB false j w).
+    { unfold sys_futimens. apply PB_upd_step; reflexivity. }
+    intro r3. eapply hc_bind with (R := fun _ => PB false j w).
+    { destruct r3; [apply hc_ret; auto | apply hc_say; auto | apply hc_ret; auto]. }
+    intro. eapply hc_bind with (R := fun r c => match r with SErr _ => PB false j w c | _ => PB true j w c end).
+    { unfold sys_close_out. apply hc_sys_gen.
+      - intros c H. eapply PB_kill; eauto.
+      - intros c sg (_ & Hb & _) Hb'. congruence.
+      - intros c e H. exact H.
+      - intros c (Ho & Hb & Hr & H). unfold natural_ok. cbn [fst snd].
+        split; [exact Ho|]. split; [exact Hb|]. split; [exact Hr|]. cbn [k_fs with_fs].
+        eapply fsB_upd; eauto.
+      - discriminate. }
+    intro r4. eapply hc_bind with (R := fun _ => PB true j w).
+    { destruct r4; [apply hc_ret; auto | eapply fatal_from; apply cleanup_B | apply hc_ret; auto]. }
+    intro. apply hc_set_opathn. intros c (_ & Hb & Hr & H). split; [reflexivity|]. split; [exact Hb|]. split; [exact Hr | exact H].
+  Qed.
+
+  Lemma PC_kill j w c : PC j w c -> EX (Killed SIGKILL) WKill c.
+  Proof. intros (_ & _ & Hr & H). right. right. left. split; [exact Hr|]. exists true, j, w. exact H. Qed.
+
+  Lemma PD_intro bl j w c :
+    k_opathn c = None -> k_blocked c = bl -> regf = true -> Wok w -> fsD j w (k_fs c) ->
+    (nlook (k_fs c) op = None \/ k_rmfail c = true \/ c_keep cf = true) -> PD bl j w c.
+  Proof. intros. unfold PD. tauto. Qed.
+
+  Lemma oprnd_rm_ok j w :
+    Wok w -> hc (PC j w) (oprnd_rm pl op) (fun _ => PD true j w) EX.
+  Proof.
+    intro Hw. unfold oprnd_rm.
+    eapply hc_bind with (R := fun r c => match r with
+                                         | SOk _ => PD true j w c
+                                         | SErr _ => PC j w c
+                                         | SHang => False
+                                         end).
+    - apply hc_sys_gen.
+      + intros c H. eapply PC_kill; eauto.
+      + intros c sg (_ & Hb & _) Hb'. congruence.
+      + intros c e H. exact H.
+      + intros c (Ho & Hb & Hr & H). unfold natural_ok.
+        destruct (fsD_unlink_in j w _ (fsB_fsD _ _ _ H)) as [D1 D2].
+        destruct (unlink_result (k_fs c) op) as [[E1 E2]|[e [E1 E2]]]; rewrite E1.
+        * apply PD_intro; auto.
+        * rewrite E2. split; [exact Ho|]. split; [exact Hb|]. split; [exact Hr|]. cbn [k_fs with_fs]. exact H.
+      + discriminate.
+    - intro r. destruct r as [u|e|].
+      + apply hc_ret. auto.
+      + eapply hc_bind with (R := fun _ => PD true j w).
+        * apply hc_set_rmfail. intros c (Ho & Hb & Hr & H). apply PD_intro; auto. apply fsB_fsD. exact H.
+        * intro. destruct (N.eqb e ENOENT); [apply hc_ret; auto | apply hc_say; auto].
+      + apply hc_false.
+  Qed.
+
+  Lemma keep_ok j w : Wok w -> c_keep cf = true -> forall c, PC j w c -> PD true j w c.
+  Proof. intros Hw Hk c (Ho & Hb & Hr & H). apply PD_intro; auto. apply fsB_fsD. exact H. Qed.
+
+  (* ---- sti(), input_uninit() ------------------------------------------------------------------ *)
+  Definition Fin : assn := fun c => PA false c \/ exists j w, PD false j w c.
+
+  Lemma tail_A : hc (PA true) (sti;;; input_uninit pl) (fun _ => Fin) EX.
+  Proof.
+    eapply hc_bind with (R := fun _ => PA false).
+    - apply hc_sti.
+      + intros c (H1 & _ & H3). split; [exact H1|]. split; [reflexivity | exact H3].
+      + intros c sg (H1 & _ & H3). right. cbn. left. exact H3.
+    - intro. unfold input_uninit.
+      eapply hc_bind with (R := fun _ => PA false).
+      + apply hc_sys_gen.
+        * intros c H. eapply PA_kill; eauto.
+        * intros c sg H _. eapply PA_default; eauto.
+        * intros c e H. exact H.
+        * intros c H. unfold natural_ok. cbn. destruct c; exact H.
+        * discriminate.
+      + intro r. destruct r; [apply hc_ret; intros; left; auto | | apply hc_ret; intros; left; auto].
+        eapply fatal_from. apply cleanup_A.
+  Qed.
+
+  Lemma tail_D j w : hc (PD true j w) (sti;;; input_uninit pl) (fun _ => Fin) EX.
+  Proof.
+    eapply hc_bind with (R := fun _ => PD false j w).
+    - apply hc_sti.
+      + intros c (H1 & _ & H3). split; [exact H1|]. split; [reflexivity | exact H3].
+      + intros c sg H. right. cbn. right.
+        assert (Hd : PD false j w (with_blocked c false)).
+        { destruct H as (H1 & _ & H3). split; [exact H1|]. split; [reflexivity | exact H3]. }
+        apply (PD_second _ _ _ _ Hd).
+    - intro. unfold input_uninit.
+      eapply hc_bind with (R := fun _ => PD false j w).
+      + apply hc_sys_gen.
+        * intros c H. eapply PD_kill; eauto.
+        * intros c sg H _. right. cbn. right. eapply PD_second; eauto.
+        * intros c e H. exact H.
+        * intros c H. unfold natural_ok. cbn. destruct c; exact H.
+        * discriminate.
+      + intro r. destruct r; [apply hc_ret; intros; right; eauto | apply fatal_D | apply hc_ret; intros; right; eauto].
+  Qed.
+  (* ---- input_init(): nothing changes; what a successful open tells ---------------------------- *)
+  Definition P0 : assn := fun c => k_opathn c = None /\ k_blocked c = false /\ k_fs c = b.
+
+  Lemma P0_fsA c : P0 c -> fsA (k_fs c).
+  Proof. intros (_ & _ & ->). apply fsA_refl. Qed.
+
+  Lemma ro_sys {T} k (g : fs -> sysres T) :
+    hc P0 (sys pl false k (fun f => (f, g f)))
+       (fun r c => P0 c /\ match r with SOk a => g b = SOk a | SErr _ => True | SHang => False end) EX.
+  Proof.
+    apply hc_sys_gen.
+    - intros c H. right. left. apply P0_fsA. exact H.
+    - intros c sg H _. right. left. apply P0_fsA. exact H.
+    - intros c e H. split; [exact H | exact Logic.I].
+    - intros c H. unfold natural_ok. cbn [fst snd]. destruct H as (H1 & H2 & H3). rewrite H3.
+      destruct (g b) eqn:Eg.
+      + split; [|reflexivity]. repeat split; auto.
+      + split; [|exact Logic.I]. repeat split; auto.
+      + right. cbn. rewrite H3. apply fsA_refl.
+    - discriminate.
+  Qed.
+
+  Lemma lstat_reg f p st : sys_lstat f p = SOk st -> st_kind st = SReg -> exists i, nlook f p = Some (DLink i).
+  Proof.
+    unfold sys_lstat. destruct (nlook f p) as [[i|t]|]; try discriminate.
+    - intros _ _. eauto.
+    - intro H. inversion H; subst. cbn. discriminate.
+  Qed.
+
+  Definition in_facts (iin : N) : Prop :=
+    sys_open_rd b op = SOk iin /\ (c_force cf = false -> regf = true -> exists i, nlook b op = Some (DLink i)).
+
+  Lemma fatal_0 {T} tag (Q : T -> assn) : hc P0 (fatal pl tag) Q EX.
+  Proof.
+    eapply hc_pre; [eapply (fatal_from (PA false) false); apply cleanup_A|].
+    intros c H. destruct H as (H1 & H2 & H3). split; [exact H1|]. split; [exact H2|]. rewrite H3. apply fsA_refl.
+  Qed.
+
+  Lemma input_init_ok :
+    hc P0 (input_init cf pl op)
+       (fun r c => P0 c /\ match r with inl _ => True | inr (iin, _) => in_facts iin end) EX.
+  Proof.
+    unfold input_init.
+    eapply hc_bind with (R := fun pre c => P0 c /\ (pre = None -> c_force cf = false -> regf = true ->
+                                                   exists i, nlook b op = Some (DLink i))).
+    - destruct (c_force cf) eqn:Ef.
+      + apply hc_ret. intros c H. split; [exact H|]. discriminate.
+      + eapply hc_bind; [apply ro_sys|]. intro r. destruct r as [st|e|].
+        * destruct (match c_outmode cf with OmRegf => true | _ => false end &&
+                    negb match st_kind st with SReg => true | _ => false end) eqn:E1.
+          { eapply hc_bind with (R := fun _ => P0); [apply hc_say; intros c [H _]; exact H|].
+            intro. apply hc_ret. intros c H. split; [exact H | discriminate]. }
+          destruct (match c_outmode cf with OmRegf => true | _ => false end && negb (c_keep cf) &&
+                    (nlink_limit <? st_nlink st)) eqn:E2.
+          { eapply hc_bind with (R := fun _ => P0); [apply hc_say; intros c [H _]; exact H|].
+            intro. apply hc_ret. intros c H. split; [exact H | discriminate]. }
+          apply hc_ret. intros c [H Hl]. split; [exact H|]. intros _ _ Hr.
+          unfold regf in Hr. destruct (c_outmode cf); try discriminate. cbn [andb] in E1.
+          apply negb_false_iff in E1. destruct (st_kind st) eqn:Ek; try discriminate.
+          eapply lstat_reg; eauto.
+        * eapply hc_bind with (R := fun _ => P0); [apply hc_say; intros c [H _]; exact H|].
+          intro. apply hc_ret. intros c H. split; [exact H | discriminate].
+        * eapply hc_pre; [apply hc_false|]. intros c [_ F]. exact F.
+    - intro pre. apply hc_pure_pre. intro Hpre. destruct pre as [t|].
+      + apply hc_ret. intros c H. split; [exact H | exact Logic.I].
+      + specialize (Hpre eq_refl).
+        destruct (_ && _).
+        { eapply hc_bind with (R := fun _ => P0); [apply hc_say; auto|].
+          intro. apply hc_ret. intros c H. split; [exact H | exact Logic.I]. }
+        eapply hc_bind; [apply ro_sys|]. intro r. destruct r as [iin|e|].
+        * apply hc_pure_pre. intro Ho.
+          eapply hc_bind; [apply ro_sys|]. intro r2. destruct r2 as [st|e|].
+          -- apply hc_ret. intros c [H _]. split; [exact H|]. split; [exact Ho | exact Hpre].
+          -- eapply hc_bind with (R := fun _ => P0); [apply hc_say; intros c [H _]; exact H|].
+             intro. eapply hc_bind; [apply (ro_sys KClose (fun _ => SOk tt))|]. intro r3.
+             destruct r3; [apply hc_ret; intros c [H _]; split; [exact H | exact Logic.I] | |].
+             ++ eapply hc_pre; [apply fatal_0|]. intros c [H _]. exact H.
+             ++ eapply hc_pre; [apply hc_false|]. intros c [_ F]. exact F.
+          -- eapply hc_pre; [apply hc_false|]. intros c [_ F]. exact F.
+        * eapply hc_bind with (R := fun _ => P0); [apply hc_say; intros c [H _]; exact H|].
+          intro. apply hc_ret. intros c H. split; [exact H | exact Logic.I].
+        * eapply hc_pre; [apply hc_false|]. intros c [_ F]. exact F.
+  Qed.
+
+  (* ---- output_init() ------------------------------------------------------------------------------ *)
+  Lemma output_init_ok st :
+    hc (PA true) (output_init cf pl op st)
+       (fun r c => match r with
+                   | Some (OFile j) => PB false j [] c
+                   | Some _ => PA true c /\ regf = false
+                   | None => PA true c
+                   end) EX.
+  Proof.
+    unfold output_init. unfold regf. destruct (c_outmode cf) eqn:Eo.
+    - apply hc_ret. auto.
+    - apply hc_ret. auto.
+    - rewrite Hq.
+      assert (Hr : regf = true) by (unfold regf; rewrite Eo; reflexivity).
+      eapply hc_bind with (R := fun _ => PA true).
+      { destruct (c_force cf) eqn:Ef; [|apply hc_ret; auto].
+        eapply hc_bind with (R := fun _ => PA true).
+        - apply hc_sys_gen.
+          + intros c H. eapply PA_kill; eauto.
+          + intros c sg (_ & Hb & _) Hb'. congruence.
+          + intros c e H. exact H.
+          + intros c (H1 & H2 & H3). unfold natural_ok.
+            assert (Hx : PA true (with_fs c (fst (sys_unlink (k_fs c) q)))).
+            { split; [exact H1|]. split; [exact H2|]. cbn [k_fs with_fs]. apply fsA_force_unlink; auto. }
+            destruct (unlink_result (k_fs c) q) as [[E1 _]|[e [E1 _]]]; rewrite E1; exact Hx.
+          + discriminate.
+        - intro r. destruct r as [u|e|]; try (apply hc_ret; auto).
+          destruct (N.eqb e ENOENT); [apply hc_ret; auto | apply hc_say; auto]. }
+      intro. eapply hc_bind with (R := fun r c => match r with
+                                                  | SOk j => k_opathn c = None /\ k_blocked c = true /\ fsB false j [] (k_fs c)
+                                                  | SErr _ => PA true c
+                                                  | SHang => False
+                                                  end).
+      + apply hc_sys_gen.
+        * intros c H. eapply PA_kill; eauto.
+        * intros c sg (_ & Hb & _) Hb'. congruence.
+        * intros c e H. exact H.
+        * intros c (H1 & H2 & H3). unfold natural_ok.
+          destruct (snd (sys_creat_excl (k_fs c) q _ _ _ _)) as [j|e|] eqn:Ec.
+          -- split; [exact H1|]. split; [exact H2|]. cbn [k_fs with_fs]. apply fsA_creat; auto.
+          -- split; [exact H1|]. split; [exact H2|]. cbn [k_fs with_fs]. rewrite (creat_err _ _ _ _ _ _ _ Ec). exact H3.
+          -- exfalso. eapply creat_not_hang; eauto.
+        * discriminate.
+      + intro r. destruct r as [j|e|].
+        * eapply hc_bind with (R := fun _ => PB false j []).
+          -- apply hc_set_opathn. intros c (_ & H2 & H3). split; [reflexivity|]. split; [exact H2|]. split; [exact Hr | exact H3].
+          -- intro. apply hc_ret. auto.
+        * eapply hc_bind with (R := fun _ => PA true); [apply hc_say; auto|]. intro. apply hc_ret. auto.
+        * apply hc_false.
+  Qed.
+
+  (* ---- one operand ------------------------------------------------------------------------------------ *)
+  Lemma facts_Wok iin w :
+    regf = true -> in_facts iin ->
+    (forall ndin, ilook b iin = Some ndin -> expected_output codec cf (i_data ndin) = Some w) -> Wok w.
+  Proof.
+    intros Hr [Ho Hl] Hw Hpl. destruct (open_rd_ok b op iin Ho) as [Hi Hn].
+    assert (Hlink : exists i, nlook b op = Some (DLink i)).
+    { destruct (c_force cf) eqn:Ef; [|apply Hl; auto].
+      destruct (nlook b op) as [[i|t]|] eqn:E; [eauto | exfalso; apply (Hpl Ef t); exact E | congruence]. }
+    destruct Hlink as [i Hlk]. assert (iin = i) by (eapply open_rd_link; eauto). subst i.
+    destruct (ilook b iin) as [ndin|] eqn:En; [|congruence].
+    exists iin, ndin. repeat split; auto.
+  Qed.
+
+  Lemma run1_ok : hc P0 (run1 codec cf pl op) (fun _ => Fin) EX.
+  Proof.
+    unfold run1. eapply hc_bind; [apply input_init_ok|]. intro ii. destruct ii as [t|[iin st]].
+    - apply hc_ret. intros c [H _]. left. destruct H as (H1 & H2 & H3). split; [exact H1|]. split; [exact H2|].
+      rewrite H3. apply fsA_refl.
+    - apply hc_pure_pre. intro Hf.
+      eapply hc_bind with (R := fun _ => PA true).
+      { apply hc_set_blocked. intros c (H1 & _ & H3). split; [exact H1|]. split; [reflexivity|]. cbn. rewrite H3. apply fsA_refl. }
+      intro. eapply hc_bind; [apply output_init_ok|]. intro oo.
+      assert (TA : forall d : disp, hc (PA true) (sti;;; input_uninit pl;;; ret d) (fun _ => Fin) EX).
+      { intro d. eapply hc_bind with (R := fun _ => PA false).
+        - apply hc_sti.
+          + intros c (H1 & _ & H3). split; [exact H1|]. split; [reflexivity | exact H3].
+          + intros c sg (H1 & _ & H3). right. cbn. left. exact H3.
+        - intro. eapply hc_bind with (R := fun _ => Fin); [|intro; apply hc_ret; auto]. unfold input_uninit.
+          eapply hc_bind with (R := fun _ => PA false).
+          + apply hc_sys_gen.
+            * intros c H. eapply PA_kill; eauto.
+            * intros c sg H _. eapply PA_default; eauto.
+            * intros c e H. exact H.
+            * intros c H. unfold natural_ok. cbn. destruct c; exact H.
+            * discriminate.
+          + intro r. destruct r; [apply hc_ret; intros; left; auto | | apply hc_ret; intros; left; auto].
+            eapply fatal_from. apply cleanup_A. }
+      assert (TD : forall j w (d : disp), hc (PD true j w) (sti;;; input_uninit pl;;; ret d) (fun _ => Fin) EX).
+      { intros j w d. eapply hc_bind with (R := fun _ => PD false j w).
+        - apply hc_sti.
+          + intros c (H1 & _ & H3). split; [exact H1|]. split; [reflexivity | exact H3].
+          + intros c sg H. right. cbn. right.
+            assert (Hd : PD false j w (with_blocked c false)).
+            { destruct H as (H1 & _ & H3). split; [exact H1|]. split; [reflexivity | exact H3]. }
+            apply (PD_second _ _ _ _ Hd).
+        - intro. eapply hc_bind with (R := fun _ => Fin); [|intro; apply hc_ret; auto]. unfold input_uninit.
+          eapply hc_bind with (R := fun _ => PD false j w).
+          + apply hc_sys_gen.
+            * intros c H. eapply PD_kill; eauto.
+            * intros c sg H _. right. cbn. right. eapply PD_second; eauto.
+            * intros c e H. exact H.
+            * intros c H. unfold natural_ok. cbn. destruct c; exact H.
+            * discriminate.
+          + intro r. destruct r; [apply hc_ret; intros; right; eauto | apply fatal_D | apply hc_ret; intros; right; eauto]. }
+      destruct oo as [[| |j]|].
+      + (* stdout *)
+        apply hc_pure_pre. intros _.
+        eapply hc_bind with (R := fun _ => PA true); [|intro d; apply TA].
+        eapply hc_bind with (R := fun _ => PA true); [apply work_nonfile; discriminate|].
+        intro. eapply hc_bind with (R := fun _ => PA true); apply hc_ret || intro; [auto | apply hc_ret; auto].
+      + apply hc_pure_pre. intros _.
+        eapply hc_bind with (R := fun _ => PA true); [|intro d; apply TA].
+        eapply hc_bind with (R := fun _ => PA true); [apply work_nonfile; discriminate|].
+        intro. eapply hc_bind with (R := fun _ => PA true); apply hc_ret || intro; [auto | apply hc_ret; auto].
+      + (* regular file output *)
+        eapply hc_bind with (R := fun _ c => exists w, PD true j w c); [|intro d; apply hc_exists_pre; intro w; apply TD].
+        eapply hc_bind; [apply work_file|]. intro. apply hc_exists_pre. intro w.
+        eapply hc_pre with (P := fun c => PB false j w c /\ Wok w).
+        2:{ intros c [H Hw]. split; [exact H|]. apply (facts_Wok iin); auto. apply H. }
+        apply hc_pure_pre. intro Hw.
+        eapply hc_bind with (R := fun _ c => exists w, PD true j w c); [|intro; apply hc_ret; auto].
+        eapply hc_bind; [apply regf_uninit_ok|]. intro.
+        destruct (c_keep cf) eqn:Ek.
+        * apply hc_ret. intros c H. exists w. apply keep_ok; auto.
+        * eapply hc_conseq; [apply (oprnd_rm_ok j w Hw) | auto | | auto]. intros u9 k H. exists w. exact H.
+      + eapply hc_bind with (R := fun _ => PA true); [apply hc_ret; auto | intro d; apply TA].
+  Qed.
 End C16.
+
+(* ---- from one operand to the whole run ------------------------------------------------------ *)
+Definition plain_op (cf : cfg) (b : fs) (op : path) : Prop :=
+  c_force cf = true -> forall t, nlook b op <> Some (DSym t).
+
+Definition first_or_kept (cf : cfg) (b a : fs) (op : path) : Prop :=
+  match c_outmode cf with OmRegf => first_state cf b a op | _ => tree_kept b a end.
+
+Definition strict_first (y : why) : bool :=
+  match y with
+  | WSigHandled | WHang => true
+  | WFatal t => negb (String.eqb t "close-in")
+  | _ => false
+  end.
+
+(* what is proved about every operand that was started *)
+Definition entry_ok (codec : cmode -> bytes -> cres) (cf : cfg) (h : hentry) : Prop :=
+  h_cleanfail h = false -> plain_op cf (h_before h) (h_op h) ->
+  match h_disp h with
+  | DAborted WKill => kill_safe codec cf (h_before h) (h_after h) (h_op h)
+  | DAborted y => safe codec cf (h_before h) (h_after h) (h_op h) (h_rmfail h) /\
+                  (strict_first y = true -> first_or_kept cf (h_before h) (h_after h) (h_op h))
+  | _ => safe codec cf (h_before h) (h_after h) (h_op h) (h_rmfail h)
+  end.
+
+Definition not_aborted (d : disp) : Prop := match d with DAborted _ => False | _ => True end.
+
+Lemma hc_true {A} (c : M A) : hc (fun _ => True) c (fun _ _ => True) (fun _ _ _ => True).
+Proof. intros s _. destruct (c s); exact I. Qed.
+
+Lemma run1_disp codec cf pl op :
+  hc (fun _ => True) (run1 codec cf pl op) (fun d _ => not_aborted d) (fun _ _ _ => True).
+Proof.
+  unfold run1. eapply hc_bind; [apply hc_true|]. intro ii. destruct ii as [t|[iin st]].
+  - apply hc_ret. intros. exact I.
+  - eapply hc_bind; [apply hc_true|]. intro. eapply hc_bind; [apply hc_true|]. intro oo.
+    eapply hc_bind with (R := fun d _ => not_aborted d).
+    + destruct oo as [o|]; [|apply hc_ret; intros; exact I].
+      eapply hc_bind; [apply hc_true|]. intro. eapply hc_bind; [apply hc_true|]. intro.
+      apply hc_ret. intros. exact I.
+    + intro d. eapply hc_bind with (R := fun _ _ => not_aborted d).
+      * intros s H. destruct (sti s); [exact H | exact I].
+      * intro. eapply hc_bind with (R := fun _ _ => not_aborted d).
+        -- intros s H. destruct (input_uninit pl s); [exact H | exact I].
+        -- intro. apply hc_ret. auto.
+Qed.
+
+(* ---- the ghost history is only extended by run_op ---------------------------------------------- *)
+Definition hp {A} (c : M A) : Prop :=
+  forall s, match c s with Ret _ s' => m_hist s' = m_hist s | Stop _ _ s' => m_hist s' = m_hist s end.
+
+Lemma hp_ret {A} (a : A) : hp (ret a). Proof. intro s. reflexivity. Qed.
+Lemma hp_stop {A} o w : hp (stop (A:=A) o w). Proof. intro s. reflexivity. Qed.
+Lemma hp_bind {A B} (c : M A) (f : A -> M B) : hp c -> (forall a, hp (f a)) -> hp (bind c f).
+Proof.
+  intros H1 H2 s. unfold bind. specialize (H1 s). destruct (c s) as [a s'|o w s']; auto.
+  specialize (H2 a s'). destruct (f a s'); congruence.
+Qed.
+Lemma hp_modify (g : mstate -> mstate) : (forall s, m_hist (g s) = m_hist s) -> hp (modify g).
+Proof. intros H s. cbn. apply H. Qed.
+
+Section HP.
+  Variable codec : cmode -> bytes -> cres.
+  Variable cf : cfg.
+  Variable pl : plan.
+
+  Lemma hp_sys_gen {A} cl inhalt k (f : fs -> fs * sysres A) : hp cl -> hp (sys_gen pl cl inhalt k f).
+  Proof.
+    intros Hcl s. unfold sys_gen.
+    set (s1 := set_cnt s _).
+    assert (N : forall s2, m_hist s2 = m_hist s ->
+               match (let '(f', r) := f (m_fs s2) in match r with SHang => Stop Hang WHang s2 | _ => Ret r (set_fs s2 f') end) with
+               | Ret _ s' => m_hist s' = m_hist s | Stop _ _ s' => m_hist s' = m_hist s end).
+    { intros s2 E. destruct (f (m_fs s2)) as [f' r]. destruct r; exact E. }
+    destruct (plan_lookup pl k _) as [[e|sg]|]; [reflexivity| |apply N; reflexivity].
+    destruct sg; try reflexivity.
+    - destruct (m_blocked s1); [|reflexivity]. destruct inhalt; [|apply N; reflexivity].
+      unfold handled_in_halt, bind, stop. specialize (Hcl s1). destruct (cl s1); exact Hcl.
+    - destruct (m_blocked s1); [|reflexivity]. destruct inhalt; [|apply N; reflexivity].
+      unfold handled_in_halt, bind, stop. specialize (Hcl s1). destruct (cl s1); exact Hcl.
+  Qed.
+
+  Ltac hpa :=
+    repeat first
+      [ apply hp_ret | apply hp_stop | apply hp_bind
+      | apply hp_modify; intro; reflexivity
+      | match goal with
+        | |- forall _, _ => intro
+        | |- hp (match ?x with _ => _ end) => destruct x
+        | |- hp (if ?x then _ else _) => destruct x
+        end ].
+
+  Lemma hp_cleanup : hp (cleanup pl).
+  Proof.
+    intro s. unfold cleanup. destruct (m_opathn s) as [q'|]; [|reflexivity].
+    assert (H : hp (r <- sys_gen pl (ret tt) false KUnlink (fun f => sys_unlink f q');;
+                    modify (fun s => set_opathn s None);;;
+                    match r with SErr _ => modify (fun s => set_cleanfail s true) | _ => ret tt end)).
+    { apply hp_bind; [apply hp_sys_gen; apply hp_ret|]. hpa. }
+    apply H.
+  Qed.
+
+  Lemma hp_sys {A} inhalt k (f : fs -> fs * sysres A) : hp (sys pl inhalt k f).
+  Proof. apply hp_sys_gen. apply hp_cleanup. Qed.
+
+  Lemma hp_say c t : hp (say c t). Proof. apply hp_modify. reflexivity. Qed.
+
+  Lemma hp_fatal {A} tag : hp (fatal pl (A:=A) tag).
+  Proof. unfold fatal. apply hp_bind; [apply hp_say|]. intro. apply hp_bind; [apply hp_cleanup|]. intro. apply hp_stop. Qed.
+
+  Ltac hpb :=
+    repeat first
+      [ apply hp_ret | apply hp_stop | apply hp_sys | apply hp_fatal | apply hp_say | apply hp_cleanup
+      | apply hp_bind
+      | apply hp_modify; intro; reflexivity
+      | match goal with
+        | |- forall _, _ => intro
+        | |- hp (match ?x with _ => _ end) => destruct x
+        | |- hp (if ?x then _ else _) => destruct x
+        | |- hp (warn _) => apply hp_say
+        end ].
+
+  Lemma hp_input_init op : hp (input_init cf pl op).
+  Proof. unfold input_init. hpb. Qed.
+
+  Lemma hp_output_init op st : hp (output_init cf pl op st).
+  Proof. unfold output_init. hpb. Qed.
+
+  Lemma hp_main_reads n iin : hp (main_reads pl n iin).
+  Proof. induction n; cbn [main_reads]; [apply hp_ret|]. apply hp_bind; [apply hp_sys|]. intro r. destruct r; auto. apply hp_fatal. Qed.
+
+  Lemma hp_do_write inhalt o c : hp (do_write cf pl inhalt o c).
+  Proof. unfold do_write. hpb. Qed.
+
+  Lemma hp_do_io iin o evs : hp (do_io cf pl iin o evs).
+  Proof.
+    induction evs as [|[|c] evs IH]; cbn [do_io]; [apply hp_ret| |].
+    - apply hp_bind; [apply hp_sys|]. intro r. destruct r; auto. apply hp_fatal.
+    - apply hp_bind; [apply hp_do_write|]. auto.
+  Qed.
+
+  Lemma hp_halt_entry : hp (halt_entry pl).
+  Proof.
+    intro s. unfold halt_entry. pose proof (hp_cleanup s) as H.
+    destruct (m_pint s); [unfold handled_in_halt, bind, stop; destruct (cleanup pl s); exact H|].
+    destruct (m_pterm s); [unfold handled_in_halt, bind, stop; destruct (cleanup pl s); exact H|]. reflexivity.
+  Qed.
+
+  Lemma hp_schedule iin o isdir cr : hp (schedule cf pl iin o isdir cr).
+  Proof.
+    unfold schedule. apply hp_bind; [apply hp_halt_entry|]. intro. apply hp_bind; [apply hp_do_io|]. intro.
+    destruct (_ || _); [apply hp_ret | apply hp_fatal].
+  Qed.
+
+  Lemma hp_work iin o : hp (work codec cf pl iin o).
+  Proof.
+    intro s. unfold work. cbv zeta.
+    set (d := input_data (m_fs s) iin). set (isd := input_is_dir (m_fs s) iin).
+    assert (H : hp (if c_decompress cf
+                    then main_reads pl (hdr_reads d) iin;;;
+                         (if hdr_ok d then schedule cf pl iin o isd (codec CExpand d)
+                          else if c_force cf && is_stdout o
+                               then do_write cf pl false o (firstn 4 d);;; schedule cf pl iin o isd (codec CCopy (skipn 4 d))
+                               else fatal pl "notbz2")
+                    else schedule cf pl iin o isd (codec CCompress d))).
+    { destruct (c_decompress cf); [|apply hp_schedule].
+      apply hp_bind; [apply hp_main_reads|]. intro. destruct (hdr_ok d); [apply hp_schedule|].
+      destruct (_ && _); [|apply hp_fatal]. apply hp_bind; [apply hp_do_write|]. intro. apply hp_schedule. }
+    apply H.
+  Qed.
+
+  Lemma hp_sti : hp sti.
+  Proof. intro s. unfold sti. destruct (m_pint s); [reflexivity|]. destruct (m_pterm s); reflexivity. Qed.
+
+  Lemma hp_regf_uninit j st : hp (regf_uninit pl j st).
+  Proof. unfold regf_uninit. hpb. Qed.
+
+  Lemma hp_oprnd_rm op : hp (oprnd_rm pl op).
+  Proof. unfold oprnd_rm. hpb. Qed.
+
+  Lemma hp_run1 op : hp (run1 codec cf pl op).
+  Proof.
+    unfold run1. apply hp_bind; [apply hp_input_init|]. intro ii. destruct ii as [t|[iin st]]; [apply hp_ret|].
+    apply hp_bind; [apply hp_modify; reflexivity|]. intro.
+    apply hp_bind; [apply hp_output_init|]. intro oo.
+    apply hp_bind.
+    - destruct oo as [o|]; [|apply hp_ret].
+      apply hp_bind; [apply hp_work|]. intro. apply hp_bind; [|intro; apply hp_ret].
+      destruct o; try apply hp_ret. apply hp_bind; [apply hp_regf_uninit|]. intro.
+      destruct (c_keep cf); [apply hp_ret | apply hp_oprnd_rm].
+    - intro d. apply hp_bind; [apply hp_sti|]. intro. apply hp_bind; [|intro; apply hp_ret].
+      unfold input_uninit. hpb.
+  Qed.
+End HP.
+
+Section RunOk.
+  Variable codec : cmode -> bytes -> cres.
+  Variable cf : cfg.
+  Variable pl : plan.
+
+  Lemma fsA_kept b q f : regf cf = false -> fsA cf b q f -> tree_kept b f.
+  Proof.
+    intros Hr (H1 & H2 & H3). split; [|exact H1]. intro p.
+    destruct (String.eqb_spec p q) as [->|Hp]; [|apply H2; auto].
+    destruct H3 as [H3|(A & _)]; [exact H3 | congruence].
+  Qed.
+
+  Lemma regf_spec : regf cf = true <-> c_outmode cf = OmRegf.
+  Proof. unfold regf. destruct (c_outmode cf); split; congruence. Qed.
+
+  Lemma fsA_first_or_kept b op q f :
+    out_name (c_decompress cf) op = Some q -> fsA cf b q f -> first_or_kept cf b f op.
+  Proof.
+    intros Hq H. unfold first_or_kept. destruct (c_outmode cf) eqn:Eo.
+    - eapply fsA_kept; eauto. unfold regf. rewrite Eo. reflexivity.
+    - eapply fsA_kept; eauto. unfold regf. rewrite Eo. reflexivity.
+    - eapply fsA_first; eauto.
+  Qed.
+
+  Lemma first_or_kept_safe b f op rm : first_or_kept cf b f op -> safe codec cf b f op rm.
+  Proof. unfold first_or_kept, safe. destruct (c_outmode cf); auto. Qed.
+
+  Lemma second_safe b op q f rm :
+    out_name (c_decompress cf) op = Some q -> plain cf b op -> second codec cf b op q f rm -> safe codec cf b f op rm.
+  Proof.
+    intros Hq Hpl H. pose proof H as (Hr & _). apply regf_spec in Hr. unfold safe. rewrite Hr.
+    right. eapply second_second; eauto.
+  Qed.
+
+  Lemma safe_kill b f op rm : safe codec cf b f op rm -> kill_safe codec cf b f op.
+  Proof.
+    unfold safe, kill_safe. destruct (c_outmode cf); auto.
+    unfold first_state, second_state. destruct (out_name (c_decompress cf) op) as [q|].
+    - intros [[H _]|[H _]]; [left; exact H | right; eauto].
+    - intros [H|[]]. left. exact H.
+  Qed.
+
+  Lemma Fin_safe b op q c :
+    out_name (c_decompress cf) op = Some q -> plain cf b op ->
+    Fin codec cf b op q c -> safe codec cf b (k_fs c) op (k_rmfail c).
+  Proof.
+    intros Hq Hpl [H|(j & w & H)].
+    - apply first_or_kept_safe. eapply fsA_first_or_kept; eauto. apply H.
+    - eapply second_safe; eauto. eapply PD_second; eauto.
+  Qed.
+
+  Lemma EX_entry b op q o y c :
+    out_name (c_decompress cf) op = Some q -> plain cf b op ->
+    EX codec cf b op q o y c -> k_cleanfail c = false ->
+    match y with
+    | WKill => kill_safe codec cf b (k_fs c) op
+    | _ => safe codec cf b (k_fs c) op (k_rmfail c) /\
+           (strict_first y = true -> first_or_kept cf b (k_fs c) op)
+    end.
+  Proof.
+    intros Hq Hpl [H|H] Hc; [congruence|].
+    assert (FA : forall f, fsA cf b q f -> first_or_kept cf b f op) by (intros; eapply fsA_first_or_kept; eauto).
+    assert (S2 : forall f rm, fsA cf b q f \/ second codec cf b op q f rm -> safe codec cf b f op rm).
+    { intros f rm [A|A]; [apply first_or_kept_safe; auto | eapply second_safe; eauto]. }
+    destruct y; cbn in H.
+    - destruct (String.eqb tag "close-in") eqn:Et; cbn [strict_first]; rewrite Et; cbn [negb].
+      + split; [apply S2; exact H | discriminate].
+      + split; [apply first_or_kept_safe; auto | auto].
+    - split; [apply first_or_kept_safe; auto | auto].
+    - split; [apply S2; exact H | discriminate].
+    - split; [apply S2; exact H | discriminate].
+    - destruct H as [H|[(Hr & cm & j & w & H)|(Hr & j & w & Hw & H)]].
+      + apply (safe_kill b (k_fs c) op false). apply first_or_kept_safe. auto.
+      + apply regf_spec in Hr. unfold kill_safe. rewrite Hr. left. eapply fsB_intact; eauto.
+      + apply regf_spec in Hr. unfold kill_safe. rewrite Hr. right. exists q. split; [exact Hq|].
+        eapply fsD_complete; eauto.
+    - split; [apply first_or_kept_safe; auto | auto].
+  Qed.
+
+  Definition boundary_ok (s : mstate) : Prop := m_opathn s = None /\ m_blocked s = false.
+
+  Lemma run_op_ok op s : boundary_ok s ->
+    match run_op codec cf pl op s with
+    | Ret _ s' => boundary_ok s' /\ exists h, m_hist s' = h :: m_hist s /\ entry_ok codec cf h
+    | Stop o y s' => exists h, m_hist s' = h :: m_hist s /\ entry_ok codec cf h
+    end.
+  Proof.
+    intros [Bo Bb]. unfold run_op.
+    set (s0 := set_cleanfail (set_rmfail s false) false).
+    destruct (out_name_some (c_decompress cf) op) as [q Hq].
+    assert (H0 : P0 (m_fs s) (core_of s0)) by (repeat split; auto).
+    pose proof (run1_ok codec cf pl (m_fs s) op q Hq s0 H0) as H1.
+    pose proof (run1_disp codec cf pl op s0 I) as H2.
+    pose proof (hp_run1 codec cf pl op s0) as H3.
+    destruct (run1 codec cf pl op s0) as [d s1|o y s1].
+    - split.
+      + destruct H1 as [(A & B & _)|(j & w & A & B & _)]; split; auto.
+      + eexists. split; [cbn; rewrite H3; reflexivity|]. intros Hc Hpl. cbn in *.
+        assert (Hs : safe codec cf (m_fs s) (m_fs s1) op (m_rmfail s1)).
+        { apply (Fin_safe (m_fs s) op q (core_of s1)); auto. }
+        destruct d as [t| |y]; auto. contradiction.
+    - eexists. split; [cbn; rewrite H3; reflexivity|]. intros Hc Hpl. cbn in *.
+      pose proof (EX_entry (m_fs s) op q o y (core_of s1) Hq Hpl H1 Hc) as H4.
+      destruct y; exact H4.
+  Qed.
+
+  Lemma finish_hist s : m_hist (fst (finish cf pl s)) = m_hist s.
+  Proof.
+    unfold finish.
+    set (prog := match c_outmode cf with
+                 | OmStdout => r <- sys pl false KCloseStdout sys_close_nop;;
+                               match r with SErr _ => fatal pl "close-stdout" | _ => ret tt end
+                 | _ => ret tt end).
+    assert (H : hp prog).
+    { unfold prog. destruct (c_outmode cf); try apply hp_ret.
+      apply hp_bind; [apply hp_sys|]. intro r. destruct r; [apply hp_ret | apply hp_fatal | apply hp_ret]. }
+    specialize (H s). destruct (prog s); exact H.
+  Qed.
+
+  Theorem run_ops_ok ops : forall s,
+    boundary_ok s -> Forall (entry_ok codec cf) (m_hist s) ->
+    Forall (entry_ok codec cf) (m_hist (fst (run_ops codec cf pl ops s))).
+  Proof.
+    induction ops as [|op r IH]; intros s B F; cbn [run_ops].
+    - rewrite finish_hist. exact F.
+    - pose proof (run_op_ok op s B) as H. destruct (run_op codec cf pl op s) as [u s'|o y s'].
+      + destruct H as (B' & h & Eh & Hh). apply IH; auto. rewrite Eh. constructor; auto.
+      + destruct H as (h & Eh & Hh). cbn. rewrite Eh. constructor; auto.
+  Qed.
+End RunOk.
+
+Theorem all_entries_ok codec cf f ops pl :
+  Forall (entry_ok codec cf) (m_hist (fst (run_full codec cf f ops pl))).
+Proof. unfold run_full. apply run_ops_ok; [split; reflexivity | constructor]. Qed.
+
+Lemma every_started_operand codec cf f ops pl h :
+  In h (m_hist (fst (run_full codec cf f ops pl))) ->
+  h_cleanfail h = false -> plain_op cf (h_before h) (h_op h) ->
+  match h_disp h with
+  | DAborted WKill => kill_safe codec cf (h_before h) (h_after h) (h_op h)
+  | DAborted y => safe codec cf (h_before h) (h_after h) (h_op h) (h_rmfail h) /\
+                  (strict_first y = true -> first_or_kept cf (h_before h) (h_after h) (h_op h))
+  | _ => safe codec cf (h_before h) (h_after h) (h_op h) (h_rmfail h)
+  end.
+Proof.
+  intros Hin Hc Hp. pose proof (all_entries_ok codec cf f ops pl) as H.
+  rewrite Forall_forall in H. exact (H h Hin Hc Hp).
+Qed.
+
+(* ---- witnesses --------------------------------------------------------------------------------- *)
+Definition ex16_codec (m : cmode) (d : bytes) : cres :=
+  match m with
+  | CCompress => {| c_io := [IoWrite [66; 90; 104; 57]; IoRead; IoRead; IoWrite (rev d)]; c_ok := true |}
+  | _ => {| c_io := [IoRead]; c_ok := false |}
+  end.
+Definition ex16_cfg : cfg :=
+  {| c_decompress := false; c_force := false; c_keep := false; c_outmode := OmRegf; c_uid := 0; c_gid := 0; c_now := 99 |}.
+Definition ex16_node (d : bytes) : inode :=
+  {| i_kind := KReg; i_mode := 420; i_uid := 7; i_gid := 8; i_atime := 10; i_mtime := 20; i_data := d; i_committed := true |}.
+Definition ex16_fs : fs :=
+  {| f_names := [("a"%string, DLink 1)]; f_inodes := [(1, ex16_node [1; 2; 3])]; f_stdout := [] |}.
+
+Lemma status_pairing_witness :
+  exists codec cf f op pl1 pl2,
+    (let '(s, o) := run_full codec cf f [op] pl1 in
+     o = Exit 1 /\ exists h, m_hist s = [h] /\ second_state codec cf (h_before h) (h_after h) op (h_rmfail h)) /\
+    (let '(s, o) := run_full codec cf f [op] pl2 in
+     o = Killed SIGTERM /\ exists h, m_hist s = [h] /\ second_state codec cf (h_before h) (h_after h) op (h_rmfail h)).
+Proof.
+  exists ex16_codec, ex16_cfg, ex16_fs, "a"%string, [(KClose, 2%nat, Fail EIO)], [(KFchown, 1%nat, Raise SIGTERM)].
+  split.
+  - vm_compute. split; [reflexivity|]. eexists. split; [reflexivity|]. split.
+    + eexists 1, _, _, _. repeat split; try reflexivity.
+      intros i nd H. destruct i as [|[[p|p|]|[p|p|]|]]; cbn in *; try discriminate; exact H.
+    + intros H. exfalso. apply H. reflexivity.
+  - vm_compute. split; [reflexivity|]. eexists. split; [reflexivity|]. split.
+    + eexists 1, _, _, _. repeat split; try reflexivity.
+      intros i nd H. destruct i as [|[[p|p|]|[p|p|]|]]; cbn in *; try discriminate; exact H.
+    + intros H. exfalso. apply H. reflexivity.
+Qed.
+
+Lemma force_symlink_witness :
+  exists codec cf f op pl ino,
+    nlook f "x"%string = Some (DLink ino) /\ (exists nd, ilook f ino = Some nd /\ i_data nd <> []) /\
+    snd (run codec cf f [op] pl) = Exit 1 /\
+    forall p, nlook (fst (run codec cf f [op] pl)) p <> Some (DLink ino).
+Proof.
+  exists ex16_codec,
+    {| c_decompress := true; c_force := true; c_keep := false; c_outmode := OmRegf; c_uid := 0; c_gid := 0; c_now := 99 |},
+    {| f_names := [("x"%string, DLink 1); ("x.bz2"%string, DSym "x"%string)];
+       f_inodes := [(1, ex16_node [104; 101; 108; 108; 111])]; f_stdout := [] |},
+    "x.bz2"%string, [], 1.
+  split; [reflexivity|]. split; [eexists; split; [reflexivity | discriminate]|].
+  split; [vm_compute; reflexivity|].
+  intro p. unfold nlook.
+  match goal with |- alook _ _ (f_names (fst ?R)) <> _ =>
+    assert (E : f_names (fst R) = [("x.bz2"%string, DSym "x"%string)]) by (vm_compute; reflexivity) end.
+  rewrite E. cbn [alook]. destruct (String.eqb "x.bz2" p); discriminate.
+Qed.
+
+Lemma cleanup_failure_witness :
+  exists codec cf f op pl,
+    let '(s, o) := run_full codec cf f [op] pl in
+    o = Exit 1 /\ exists h, m_hist s = [h] /\ h_cleanfail h = true /\
+      ~ first_state cf (h_before h) (h_after h) op /\ input_intact (h_before h) (h_after h) op.
+Proof.
+  exists ex16_codec, ex16_cfg, ex16_fs, "a"%string, [(KWrite, 2%nat, Fail ENOSPC); (KUnlink, 1%nat, Fail EIO)].
+  vm_compute. split; [reflexivity|]. eexists. split; [reflexivity|]. split; [reflexivity|]. split.
+  - intros [_ [H|H]]; discriminate.
+  - split; [reflexivity|]. intros i nd H. destruct i as [|[[p|p|]|[p|p|]|]]; cbn in *; try discriminate; exact H.
+Qed.
